@@ -94,9 +94,10 @@ CHECKS = {
         "truncation, repetition and wrong-epoch placement; inputs are chained on one endpoint until it closes "
         "(depth>1 histories) and every exception is re-derived on a fresh endpoint. A QUIC-level key-holding "
         "TLS adversary adds 729 structurally valid but hostile TLS messages with valid MACs (both roles) and "
-        "every split of 7 messages across CRYPTO frames. Oracle: receive_datagram returns; the timer/transmit/"
+        "every split of 7 messages across CRYPTO frames; every menu case is also followed, before the endpoint's caller transmits, by the same "
+        "input again and by the legal message of that stage. One state gives the peer 0-RTT keys (whole frame menu in 0-RTT packets). Oracle: receive_datagram returns; the timer/transmit/"
         "event API keeps returning normally until ConnectionTerminated.",
-        "Depth-1 per state for TLS messages; random datagrams are not sampled (grammar enumeration instead). "
+        "Depth 1 (plus the two-inputs-before-transmit family) per state for TLS messages; random datagrams are not sampled (grammar enumeration instead). "
         "A worker crash (memory corruption) is isolated to the single input and reported.",
         "DESIGN.md §4 C05",
     ),
@@ -112,8 +113,9 @@ CHECKS = {
         "MAX_STREAMS. In every reached state a drain raises each limit to EXACTLY what the written data needs "
         "and acknowledges: everything written must then reach the wire, so credit charged for "
         "retransmissions shows up as starvation. 0-RTT resumption against remembered limits is explored "
-        "under d<=1/2 network deviations.",
-        "Depth 3 on two client configurations and 2 on a server one (quick); 4/3 on five configurations "
+        "under d<=1/2 network deviations. The BFS also restarts from a non-initial root (one request/response exchange completed and "
+        "acknowledged, the stream forgotten by the endpoint).",
+        "Depth 3 on two client configurations and 2 on a server one and from the non-initial root (quick); 4/3 on five configurations "
         "(thorough). All credit frames the harness sends are delivered (loss of credit frames not modelled).",
         "DESIGN.md §4 C06",
     ),
@@ -128,7 +130,8 @@ CHECKS = {
         "endpoint put on the wire decides the verdict: the endpoint must close with a matching error exactly "
         "when a limit is exceeded and never accuse a compliant peer. Repetition menus (up to 700 frames) "
         "measure CRYPTO reassembly, path challenges, connection-ID retirements and stream buffers against "
-        "the advertised/documented bounds.",
+        "the advertised/documented bounds; a grid of 1-3 NEW_CONNECTION_ID frames (sequence numbers 8..10 x Retire Prior To) at a victim "
+        "that is exactly full is judged by a five-line reference of the active-ID set.",
         "Depth 2 (full alphabet) / 3 (core) quick, 3 / 4 thorough, both roles. Frames on streams the endpoint "
         "may have discarded are not judged; a FIN/RESET below already received data may be accepted or rejected.",
         "DESIGN.md §4 C07",
@@ -159,7 +162,8 @@ CHECKS = {
         "of the start of closing, termination when that timer fires, exactly one ConnectionTerminated, only "
         "CONNECTION_CLOSE packets in at most one batch, and silence afterwards. These are safety/liveness "
         "claims over schedules; exhaustive bounded-deviation search is what covers them.",
-        "d<=1 on all scenarios, d<=2 on a rotating subset (quick) / all v1 scenarios (thorough). Fatal "
+        "d<=1 on all scenarios, d<=2 on a rotating subset (quick) / all v1 scenarios (thorough). Endings the handshake itself decides "
+        "(no common version after Version Negotiation, no common ALPN, untrusted certificate) are explored at d<=1. Other fatal "
         "protocol errors and peer closes in each packet-number space are reached by the PeerBot checks, not "
         "here. PTO at closing start is read from the recovery object.",
         "DESIGN.md §4 C09",
@@ -206,7 +210,8 @@ CHECKS = {
         "certificate chains (1-3 certs, padded RSA) x handshake/echo/early bulk/server close/migration, "
         "with drop, duplicate, delay, client rebinding, spoofed-source replay and late timers.",
         "d<=1 everywhere, d<=2 on a subset; mds grid {1200,1201,1250,1350,1472,1500}^2 complete in thorough, a "
-        "seed-selected ninth in quick. One known finding (unpadded server Initial when budget-limited).",
+        "seed-selected ninth in quick. Scenarios in which the server is left alone with its probe timeouts while unvalidated "
+        "(hs_silence) and the receive-without-transmit deviation found the unpadded server Initial under a small budget (repaired, 7cc06e7).",
         "DESIGN.md §4 C13",
     ),
     "C14": (
@@ -301,7 +306,8 @@ CHECKS = {
         "each await point, idle timeout, CID change, key update, retry on/off, two clients, write before "
         "connected); every schedule with <= d deviations is executed on fresh objects. Oracle: reader bytes == "
         "writer bytes + EOF, every waiter finishes exactly once, routing table maps every issued unretired CID "
-        "and nothing after termination, retry tokens bound to the source address, no exception in callbacks.",
+        "and nothing after termination, the connection ID a live state was created through keeps leading to it (no second state), "
+        "retry tokens bound to the source address, no exception in callbacks.",
         "d<=1 on 21 scenarios and d<=2 on 5 (quick); d<=2 on 24 and d<=3 on 5 (thorough). Timers firing late "
         "are not explored; a nanosecond stutter guard models a real loop's progress on a frozen clock.",
         "DESIGN.md §4 C19",
@@ -333,7 +339,7 @@ CHECKS = {
         "recovery and stream state. With qlog on json.dumps(to_dict()) must succeed and packet_sent / "
         "packet_received record counts must equal the packets seen leaving / taken into frame processing.",
         "Random fields (CIDs, challenges) are compared by length and first-appearance order. The hostile TLS "
-        "message menu of C05 is not replayed here. Inputs outside the C helpers' memory contract are skipped "
+        "message / transport-parameter menu of C05 is replayed at depth 1 with the qlog off and on (outcome and serialisability). Inputs outside the C helpers' memory contract are skipped "
         "in every setting (none on the repaired tree).",
         "DESIGN.md §4 C20",
     ),
